@@ -38,6 +38,8 @@ def sig_of(rec):
         parts.append("state-changed-before-login")
     if not d.get("okChurn", True):
         parts.append("id-of-connected-user-reused")
+    if not d.get("okStorm", True):
+        parts.append("concurrent-storm")
     return "%s/%s" % (rec.get("prop"), "/".join(parts))
 
 
@@ -58,6 +60,15 @@ def run(ctx, prop):
                                 extra_seed=b + {"C04": 100, "C12": 200, "C13": 300, "C17": 400}[prop], timeout=600)
         # TLC prints every candidate successor at the last depth: keep every 7th to avoid near-duplicates
         scripts += items[::7]
+    # free-running concurrency that is sound under every interleaving: a chat with permanent members, churning
+    # members and outsiders (C12); simultaneous bans by several administrators followed by a restart (C17)
+    world = scripts[0]["world"]
+    if prop == "C12":
+        for k in range(2 if quick else 10):
+            scripts.append({"world": world, "steps": [{"op": "chatstorm", "members": 4, "churners": 3, "outsiders": 2, "lines": 25}]})
+    if prop == "C17":
+        for k in range(2 if quick else 10):
+            scripts.append({"world": world, "steps": [{"op": "banstorm", "n": 10}]})
     sp = ctx.path("scripts.ndjson")
     with open(sp, "w") as f:
         for s in scripts:
